@@ -1,6 +1,7 @@
 """C11 — frozen dataclass: immutability, copy_with / deep_copy_with aliasing contract, eq / hash / order as the field tuple.
 Differential correspondence between the real decorator (generated dataclass modules, real files) and the Lean model `Frozen`."""
 import itertools, json, os, sys, tempfile, shutil, importlib.util, dataclasses, copy
+import _frozentrace_common as FT
 
 RULE = ('exhaustive grid: 1..3 fields (4..5 sampled) x {slots, order, kw_only} x class shape {single, decorated subclass, '
         'undecorated subclass, undecorated-of-decorated, decorated-of-undecorated, three decorated levels} x every subset of init fields to replace x '
@@ -9,7 +10,10 @@ RULE = ('exhaustive grid: 1..3 fields (4..5 sampled) x {slots, order, kw_only} x
         'values with nested mutable structure (lists of dicts of lists, sets, frozensets, tuples containing lists, instances of a plain user class '
         '- mutable, hashable by identity, compared by identity - directly and inside tuples / frozensets / lists / dicts (as values and as keys) / sets / each other, '
         'aliased sub-objects, None/int/str) are drawn from the rng; a directed family puts every such hashable-but-mutable value shape into every field '
-        'position x options x shapes x subsets x both methods; near misses: unknown keyword, init=False keyword, replacement by the original object / by another '
+        'position x options x shapes x subsets x both methods; a third directed family puts values that copy.deepcopy CANNOT duplicate - a threading.Lock, a generator object, an '
+        'instance whose __deepcopy__ raises - alone and next to ordinary lists / dicts / sets / objects inside a list / dict (as value and as key) / tuple / set / frozenset / '
+        'plain object / frozen instance (depth 1..3) into every field position x options x shapes x every subset of fields to replace (by ordinary or uncopyable keyword objects) x '
+        'both methods: deep_copy_with must raise (the TypeError of deepcopy propagates, no instance) or return an instance that shares no mutable object; near misses: unknown keyword, init=False keyword, replacement by the original object / by another '
         "field's object, positional / missing / surplus constructor arguments, invalid class definitions; "
         'values also hold instances of @frozen_dataclass classes (three helper classes defined with the real decorator in every generated module: default options / '
         'slots=True / kw_only=False, and - where the class chain allows it - the class under test itself), nested in each other to depth >= 2, holding lists / dicts / sets / '
@@ -26,10 +30,16 @@ RULE = ('exhaustive grid: 1..3 fields (4..5 sampled) x {slots, order, kw_only} x
         'copies in a row) + random ones x options x class shapes x 1..3 fields, every copy judged against the receiver as it is at that moment and against every instance '
         'alive then; comparison cases: equal twin, one field changed at '
         'each position, other class of the hierarchy, unhashable / incomparable values, frozen instances as field values (each comparison first hashes and drops a '
-        'short-lived instance of the same class with other field values).  non-trivial = copy with a mutable field value, '
+        'short-lived instance of the same class with other field values), `<=` and `>=` included; class statements that dataclasses refuses for the options the decorator hands '
+        'over (root class deriving from a NON-frozen @dataclass, order=True next to an own __lt__, slots=True next to an own __slots__) x options x shapes, each followed by the '
+        'operations a wrongly returned class would have to withstand; every decoration, constructor call and copy call is also run through the statement programs translated '
+        'from the source (Frozen IR) and the statements executed by the real library are compared with the path of the IR interpreter.  non-trivial = copy with a mutable field value, '
         'or any attribute / comparison case')
 EXHAUSTIVE = {'quick': True, 'thorough': True}
 ASSUMPTIONS = ['field annotations are typing.Any and type_safe validation is observed only as a journal event (the type-checking half is C10)',
+               'objects that cannot be deep-copied are opaque: they hold no further values, are hashable and compared by identity, and deepcopy of them raises TypeError '
+               '(threading.Lock, generator objects, a class with a raising __deepcopy__); the property demands nothing of a deep_copy_with call that returns no instance '
+               'when an init field holds such an object, and the full copy contract of every instance that IS returned',
                'values are built from None / int / str / tuple / list / dict / set / frozenset / instances of one plain user class without __eq__, __hash__, '
                '__slots__, __deepcopy__ / instances of @frozen_dataclass classes (no floats, bools); dict keys and set members are hashable values (atoms, tuples, '
                'frozensets, instances of the plain class, frozen instances whose fields are hashable)',
@@ -47,7 +57,9 @@ ASSUMPTIONS = ['field annotations are typing.Any and type_safe validation is obs
                'is referenced twice inside one field value (deepcopy\'s memo is not modelled), keyword objects are new objects; the driver re-checks all of this per case (histOk)',
                'the value assigned to __class__ is an ordinary class with the layout of a slot-free instance, the value assigned to __dict__ a new empty dict; names that are no '
                'fields on an instance of an undecorated subclass (slot-free hierarchy) are the recorded finding undecoratedSubclassAllowsNewAttributes, whatever the name']
-TRUSTED = ['object.__setattr__ / object.__delattr__ for the names the generated frozen __setattr__ / __delattr__ let through are transcribed: an ordinary name (also the name of a '
+TRUSTED = ['statement traces: sys.monitoring LINE / PY_START events (tool id 3, local to the code objects of cls_deco_frozen_dataclass.py / get_context.py), lines mapped to statements with the table the translator computes from the current source',
+           'which class statements dataclasses refuses (Hazard.refused: non-frozen dataclass base under frozen=True, own __lt__ under order=True, own __slots__ under slots=True) is transcribed from CPython 3.12 _process_class / _add_slots and exercised by the correspondence run',
+           'object.__setattr__ / object.__delattr__ for the names the generated frozen __setattr__ / __delattr__ let through are transcribed: an ordinary name (also the name of a '
            'method or a special method) is a key of the instance __dict__; __class__ re-classes the object (then nothing is frozen any more), del __class__ is a TypeError; '
            '__dict__ = {} / del __dict__ drop every attribute that is not in a slot.  That the generated methods are the ones in force is the translator fact attrProtocolHooks = [] '
            '(lemma cfg_no_attr_hooks); with a hook the model reads every assignment as reaching object.__setattr__ and the immutability theorems no longer check',
@@ -64,6 +76,11 @@ TRUSTED = ['object.__setattr__ / object.__delattr__ for the names the generated 
            '"original unchanged" holds in the functional model because the copy paths only read the receiver; the translator checks that the method bodies contain no write to self, and the correspondence check compares identities and deep snapshots of the original before / after']
 
 FINDING = 'undecoratedSubclassAllowsNewAttributes'
+# deep_copy_with and an init=False field with a plain default: the generated __init__ hands the ONE default object to every instance, so the "deep" copy
+# holds the very object the original holds (and whatever mutable it contains).  The proved contract (Spec: specExpect -> equalOnly) does not demand more
+# of such a field; the property text ("shares no mutable field object") read literally does: region `specSharedDefaultFields`, witness
+# `deep_copy_shares_initFalse_default` (Props/C11.lean).
+FINDING_SHARED_DEFAULT = 'deepCopySharesInitFalseDefault'
 # The property text says "reject": any exception counts.  With slots=True a name that is not a field is rejected with TypeError
 # (not FrozenInstanceError) — modelled (theorem frozen_error_class), counted in the evidence (`rejections_by_exception`), and
 # turned into a property failure with this finding id only if the strict reading of appendix E is switched on.
@@ -83,11 +100,19 @@ NAME_CLASS, NAME_DICT = 210, 211
 # k0, v0, k1, v1, …) / set / frozenset / instance of the plain class | ['z', id, [items], cid] instance of the @frozen_dataclass class
 # `cid` with the field values `items` in field order: cid 10..12 = helper classes Z10..Z12 defined in every generated module,
 # cid 0..4 = the class under test itself (head class K<cid> of the case).  Every helper keeps what follows the items (j[3:]).
+# ['u', id, [], variant] an object that copy.deepcopy cannot duplicate: variant 0 = threading.Lock(), 1 = a generator object, 2 = an instance
+# of a class whose __deepcopy__ raises TypeError; opaque (no items), hashable and compared by identity, not counted as a mutable object.
 
 ZHELP = {10: ('Z10', 1), 11: ('Z11', 2), 12: ('Z12', 2)}      # cid -> (class name, number of fields g0, g1, …)
 ZSOURCE = ['@frozen_dataclass', 'class Z10:', '    g0: Any', '',
            '@frozen_dataclass(slots=True)', 'class Z11:', '    g0: Any', '    g1: Any', '',
            '@frozen_dataclass(kw_only=False)', 'class Z12:', '    g0: Any', '    g1: Any', '']
+
+
+# the decorations the fixed part of every generated module performs (ZSOURCE), for the statement-level model (Drv/FrozenIR.lean: decoOne):
+# [type_safe, order, kw_only, slots, decorator applied directly (`@frozen_dataclass`), shortcut (`@frozen_type_safe_dataclass`), dataclass() raises]
+ZDECO = [[False, False, True, False, True, False, False], [False, False, True, True, False, False, False],
+         [False, False, False, False, False, False, False]]
 
 
 def strip_ids(j):
@@ -335,10 +360,42 @@ def build(j, memo):
             setattr(v, f'a{i}', x)
     elif t == 'z':
         v = make_frozen(j[3], items, memo)
+    elif t == 'u':
+        v = make_uncopyable(j[3])
+        _UNC[id(v)] = (j[1], v)
     else:
         v = set(items)
     memo[j[1]] = v
     return v
+
+
+class NoDeep:
+    """an object that refuses to be deep-copied"""
+
+    def __deepcopy__(self, memo):
+        raise TypeError('NoDeep objects cannot be deep-copied')
+
+
+def _a_generator():
+    yield 1
+
+
+_UNC = {}        # id(object) -> (identity in the case, the object): uncopyable objects are told apart by identity, like the model's `Atom.unc id`
+
+
+def make_uncopyable(variant):
+    import threading
+    if variant == 0:
+        return threading.Lock()
+    if variant == 1:
+        return _a_generator()
+    return NoDeep()
+
+
+def unc_identity(v):
+    """the case identity of an uncopyable object (None for anything else)"""
+    e = _UNC.get(id(v))
+    return e[0] if e is not None and e[1] is v else None
 
 
 def make_frozen(cid, items, memo):
@@ -490,7 +547,7 @@ def ctor_for(rng, v, cls, npos=0, omit_defaults=True, comparable=False, hashable
 
 
 def finish(cls, ctor, op, v, tag):
-    return {'m': 'frozen', 'c': {'cls': cls, 'next': v.n + 1, 'ctor': ctor, 'op': op}, 'x': {'tag': tag}}
+    return {'m': 'frozen', 'c': {'cls': cls, 'next': v.n + 1, 'ctor': ctor, 'op': op, 'zdeco': ZDECO}, 'x': {'tag': tag}}
 
 
 # ------------------------------------------------------------------ case generation
@@ -791,6 +848,67 @@ def frozen_nested_cases(rng, shapes, opts_list, rounds=2):
     return out
 
 
+def uncopyable_values(v):
+    """every shape of a value that `copy.deepcopy` cannot duplicate: the uncopyable object itself (a lock / a generator / an object whose
+    __deepcopy__ raises), and the object next to ordinary mutable data inside a list / dict (as value and as key) / tuple / set / frozenset /
+    plain object / frozen instance, at depth 1..3"""
+    def u(k=0):
+        return ['u', v.fresh(), [], k]
+
+    def box(t, *items):
+        ident = v.fresh()
+        return [t, ident, list(items)]
+
+    def z(cid, *items):
+        ident = v.fresh()
+        return ['z', ident, list(items), cid]
+    one, two = ['i', 1], ['i', 2]
+    return [u(0), u(1), u(2),
+            box('l', u(0), box('l', one)),                                              # [lock, [1]]
+            box('d', ['s', [103]], u(0), ['s', [112]], box('l', one, two)),             # {'g': lock, 'p': [1, 2]}   (the seeded demo)
+            box('t', box('l', one), u(1)),                                              # ([1], generator)
+            box('o', u(2), box('l')),                                                   # object with an uncopyable attribute and a list attribute
+            z(10, box('l', u(0), box('d', one, box('l')))),                             # Z10([lock, {1: []}])
+            z(11, u(1), box('l', one)),                                                 # Z11(generator, [1])
+            box('l', box('l', box('t', u(2), box('e', one)))),                          # three levels down
+            box('d', u(0), box('l', one)),                                              # the lock as dict key
+            box('f', u(2)),                                                             # frozenset({NoDeep()})
+            box('e', u(0), one),                                                        # {lock, 1}
+            box('d', ['s', [107]], z(12, box('l', one), u(0)))]                         # {'k': Z12([1], lock)}
+
+
+def uncopyable_cases(rng, shapes, opts_list):
+    """directed: values that cannot be deep-copied (at the top of a field, and nested next to ordinary lists / dicts / sets / objects) in every
+    field position x options x shapes x every subset of fields to replace x both methods; the other fields hold ordinary mutable data; the
+    keyword values are ordinary values or uncopyable ones (a keyword object is never copied)"""
+    out = []
+    k = 0
+    for opts in opts_list:
+        for shape in shapes:
+            for nf in (1, 2, 3):
+                v = Vals(rng, 0)
+                cls = mk_class(rng, v, nf, ['req'] * nf, opts, shape, opts)
+                st = f"{shape}/s{int(opts[0])}o{int(opts[1])}k{int(opts[2])}"
+                names = [n for (n, f, kwo) in resolved(cls) if f['init']]
+                subsets = []
+                for m in range(len(names) + 1):
+                    subsets += list(itertools.combinations(names, m))
+                base_n = v.n
+                nfam = len(uncopyable_values(Vals(rng, base_n)))
+                for sub in subsets:
+                    for deep in (False, True):
+                        for rnd in range(nfam if nf == 1 else 3):
+                            v = Vals(rng, base_n)
+                            fam = uncopyable_values(v)
+                            pos = k % len(names)                     # the field that holds the uncopyable value rotates
+                            ctor = {'pos': [], 'kw': [[n, fam[(k // len(names)) % len(fam)] if i == pos else v.mutable(2)]
+                                                      for i, n in enumerate(names)]}
+                            k += 1
+                            kw = [[n, rng.choice(uncopyable_values(v)) if rng.random() < 0.3 else v.value(2)] for n in sub]
+                            out.append(finish(cls, ctor, ['copy', deep, kw], v, f'copy-uncopyable/{st}'))
+    return out
+
+
 # ---- histories
 
 def nav_children(j):
@@ -952,6 +1070,44 @@ def invalid_defs(rng):
     return out
 
 
+def hazard_cases(rng):
+    """class statements `dataclasses.dataclass` refuses for the options the decorator hands over - the decoration must raise, no class may come
+    back whose instances accept an assignment: a root class that derives from an ordinary NON-frozen @dataclass (refused whatever the options:
+    frozen=True is always passed), a `__lt__` in the class body next to order=True, a `__slots__` in the class body next to slots=True - on the
+    root class and on a decorated subclass, x options x 1..2 fields; each followed by the operations a returned class would have to withstand
+    (set / del of every field and of a new name, both copy methods); plus the benign twins (`__lt__` without order=True)"""
+    out = []
+    for hz in ('dcbase', 'userlt', 'ownslots'):
+        for opts in OPTS:
+            slots, order, kw = opts
+            if hz == 'ownslots' and not slots:
+                continue                        # a `__slots__ = ()` without slots=True leaves no room for the fields: not a dataclass one can instantiate
+            for shape in ('single', 'decosub', 'plainsub'):
+                for where in ((0,) if shape != 'decosub' else (0, 2)):        # the class statement (cid) that carries the hazard
+                    if hz == 'dcbase' and where != 0:
+                        continue                # only the root class statement can get another base
+                    for nf in (1, 2):
+                        v = Vals(rng, 0)
+                        cls = mk_class(rng, v, nf, ['req'] * nf, opts, shape, opts)
+                        for l in cls:
+                            if l['cid'] == where:
+                                l['hz'] = hz
+                        st = f"{shape}/s{int(slots)}o{int(order)}k{int(kw)}"
+                        fs = resolved(cls)
+                        base_n = v.n
+                        seqs = [[['set', n], ['del', n]] for (n, f, k) in fs] + [[['set', NEW], ['del', NEW]]]
+                        for sq in seqs:
+                            v = Vals(rng, base_n)
+                            ctor = ctor_for(rng, v, cls, omit_defaults=False)
+                            ops = [[o[0], o[1], v.value(1)] if o[0] == 'set' else o for o in sq]
+                            out.append(finish(cls, ctor, ['attr', ops], v, f'hazard-{hz}/{st}'))
+                        for deep in (False, True):
+                            v = Vals(rng, base_n)
+                            ctor = ctor_for(rng, v, cls, omit_defaults=False)
+                            out.append(finish(cls, ctor, ['copy', deep, []], v, f'hazard-{hz}/{st}'))
+    return out
+
+
 def corpus_seed(rng):
     """the failing inputs of the regions repaired by 37ecc33 (fixes/demo_C11_deep_copy_with.py) — must satisfy the property now"""
     out = []
@@ -969,8 +1125,10 @@ def corpus_seed(rng):
 
 def cases(rng, tier):
     out = invalid_defs(rng)          # (the repaired regions' failing inputs live in harness/corpus/C11.jsonl, see corpus_seed)
+    out += hazard_cases(rng)
     if tier == 'quick':
         out += hashmut_cases(rng, SHAPES, [(False, False, True), (True, True, False)])
+        out += uncopyable_cases(rng, SHAPES[:4], [(False, False, True), (True, True, False)])
         out += frozen_nested_cases(rng, SHAPES, [(False, False, True), (True, False, False), (True, True, True)])
         out += hist_cases(rng, SHAPES, [(False, False, True), (True, True, False), (False, True, True)])
         out += grid(rng, [1, 2, 3], SHAPES[:3], 2)
@@ -979,6 +1137,7 @@ def cases(rng, tier):
         out += kinds_grid(rng, [1, 2], SHAPES[:3])
     else:
         out += hashmut_cases(rng, SHAPES, OPTS)
+        out += uncopyable_cases(rng, SHAPES, OPTS)
         out += frozen_nested_cases(rng, SHAPES, OPTS, rounds=4)
         out += hist_cases(rng, SHAPES, OPTS, rounds=6)
         out += grid(rng, [1, 2, 3], SHAPES, 12, full=True)
@@ -988,7 +1147,7 @@ def cases(rng, tier):
 
 
 def search(rng, tier, near):
-    return hist_cases(rng, SHAPES, OPTS, rounds=2) + frozen_nested_cases(rng, SHAPES, OPTS) + hashmut_cases(rng, SHAPES, OPTS) + grid(rng, [1, 2, 3], SHAPES, 2, full=True)
+    return hazard_cases(rng) + hist_cases(rng, SHAPES, OPTS, rounds=2) + frozen_nested_cases(rng, SHAPES, OPTS) + hashmut_cases(rng, SHAPES, OPTS) + uncopyable_cases(rng, SHAPES, OPTS) + grid(rng, [1, 2, 3], SHAPES, 2, full=True)
 
 
 # ------------------------------------------------------------------ implementation side
@@ -1004,10 +1163,11 @@ def fname(n):
 
 def module_source(cls):
     lines = ['import dataclasses', 'from typing import Any', 'from pedantic import frozen_dataclass', '',
-             'class Other:', '    """an ordinary class with the layout of a slot-free instance: the value assigned to __class__"""', ''] + ZSOURCE
+             'class Other:', '    """an ordinary class with the layout of a slot-free instance: the value assigned to __class__"""', '',
+             '@dataclasses.dataclass', 'class PlainDC:', '    """an ordinary, NON-frozen dataclass (no fields): the base of a class statement with the hazard `dcbase`"""', ''] + ZSOURCE
     for i in range(len(cls) - 1, -1, -1):
         l = cls[i]
-        base = f"(K{cls[i + 1]['cid']})" if i + 1 < len(cls) else ''
+        base = f"(K{cls[i + 1]['cid']})" if i + 1 < len(cls) else ('(PlainDC)' if l.get('hz') == 'dcbase' else '')
         if l['dec']:
             lines.append(f"@frozen_dataclass(type_safe={l['ts']}, order={l['order']}, kw_only={l['kw']}, slots={l['slots']})")
         lines.append(f"class K{l['cid']}{base}:")
@@ -1031,6 +1191,10 @@ def module_source(cls):
                 body.append(f"    {fname(f['n'])}: Any")
         if l['post']:
             body += ['    def __post_init__(self):', "        J.append('post')"]
+        if l.get('hz') == 'userlt':
+            body += ['    def __lt__(self, other):', '        return NotImplemented']
+        if l.get('hz') == 'ownslots':
+            body = ['    __slots__ = ()'] + body
         lines += body or ['    pass']
         lines.append('')
     return '\n'.join(lines)
@@ -1070,12 +1234,19 @@ def get_module(cls):
                 fa[key2] = (lambda t: (lambda: build(t, {'__mod__': mod, '__cls__': cls})))(f['d'][1])
     mod.DV, mod.FA, mod.J = dv, fa, _J
     entry = {'err': None, 'mod': mod, 'memo': memo}
+    tr = FT.tracer()
+    tr.begin()
     try:
-        spec.loader.exec_module(mod)
+        try:
+            spec.loader.exec_module(mod)
+        finally:
+            entry['decoTrace'] = tr.end()
         for l in cls:
             if l['dec']:
                 k = getattr(mod, f"K{l['cid']}")
-                orig = k.__dict__['validate_types']
+                orig = k.__dict__.get('validate_types')
+                if orig is None:            # a tree that does not attach the method to the class it returns: the operations will say so
+                    continue
 
                 def wrapped(self, *, _context=None, _orig=orig):
                     _J.append('validate')
@@ -1144,6 +1315,9 @@ def canon(v):
         return ['o', type(v).__name__, [[k, canon(x)] for k, x in sorted(vars(v).items())]]
     if is_frozen_inst(v):
         return ['z', type(v).__name__, [[f.name, canon(getattr(v, f.name, None))] for f in dataclasses.fields(v)]]
+    u = unc_identity(v)
+    if u is not None:
+        return ['u', u]
     return [type(v).__name__, v]
 
 
@@ -1172,8 +1346,17 @@ def state_same(inst, allnames, st):
             and set(getattr(inst, '__dict__', {})) == extra)
 
 
+def safe_eq(a, b):
+    """`a == b` as a fact of the run; a tree that copies wrongly may hand out half-built objects whose `==` raises"""
+    try:
+        return bool(a == b)
+    except BaseException as e:
+        return 'ERR:' + exc_name(e)
+
+
 def run_copy(inst, allnames, deep, kwj, memo, live=None, made=None):
     """`live`: every instance alive when the copy is made (default: the receiver alone); `made`: list that receives the copy"""
+    tr = FT.tracer()
     kw = {fname(n): build(j, memo) for n, j in kwj}
     others = [(x, inst_state(x, allnames)) for x in (live or []) if x is not inst]
     before = snapshot(inst, allnames)
@@ -1181,12 +1364,15 @@ def run_copy(inst, allnames, deep, kwj, memo, live=None, made=None):
     extra_before = dict(getattr(inst, '__dict__', {}))
     del _J[:]
     res = {}
+    tr.begin()
     try:
         c = (inst.deep_copy_with if deep else inst.copy_with)(**kw)
         res['out'] = 'ok'
     except BaseException as e:
         c = None
         res['out'] = exc_name(e)
+    finally:
+        res['trace'] = tr.end()
     journal = list(_J)
     after = snapshot(inst, allnames)
     self_same = (all((after[n] is before[n]) or (after[n] is not _UNSET and before[n] is not _UNSET and same(after[n], before[n])) for n in allnames)
@@ -1222,8 +1408,8 @@ def run_copy(inst, allnames, deep, kwj, memo, live=None, made=None):
         has_k = k is not _UNSET
         rm = mut_ids(r)
         fl.append([idx, True,
-                   same(r, s) if has_s else None, bool(s == r) if has_s else None,
-                   same(r, k) if has_k else None, bool(k == r) if has_k else None,
+                   same(r, s) if has_s else None, safe_eq(s, r) if has_s else None,
+                   same(r, k) if has_k else None, safe_eq(k, r) if has_k else None,
                    len(set(rm) & set(mut_ids(s))) if has_s else 0,
                    len(set(rm) & set(self_mut)),
                    (canon(s) == canon(r)) if has_s else None,
@@ -1367,7 +1553,7 @@ def run_cmp(mod, cls, a, drop, ctor2, memo):
     def tup(i):
         return tuple(getattr(i, f.name) for f in dataclasses.fields(i) if f.compare)
     res = {'ctor2': 'ok', 'eq': tri(lambda: a == b), 'eqRev': tri(lambda: b == a), 'eqSelf': tri(lambda: a == a),
-           'ne': tri(lambda: a != b), 'lt': tri(lambda: a < b), 'gt': tri(lambda: a > b)}
+           'ne': tri(lambda: a != b), 'lt': tri(lambda: a < b), 'gt': tri(lambda: a > b), 'le': tri(lambda: a <= b), 'ge': tri(lambda: a >= b)}
     for key, i in (('hash', a), ('hash2', b)):
         try:
             h = hash(i)
@@ -1381,6 +1567,8 @@ def run_cmp(mod, cls, a, drop, ctor2, memo):
     res['eqTuple'] = tri(lambda: tup(a) == tup(b))
     res['ltTuple'] = tri(lambda: tup(a) < tup(b))
     res['gtTuple'] = tri(lambda: tup(a) > tup(b))
+    res['leTuple'] = tri(lambda: tup(a) <= tup(b))
+    res['geTuple'] = tri(lambda: tup(a) >= tup(b))
     return res
 
 
@@ -1389,9 +1577,11 @@ def run_one(case):
     cls = c['cls']
     ent = get_module(cls)
     out = {}
+    deco_trace = ent.pop('decoTrace', None)          # only the case that made the module be loaded carries the trace of its decorations
     if ent['err'] is not None:
-        return {'def': 'deferr', 'deferr': ent['err']}
+        return {'def': 'deferr', 'deferr': ent['err'], 'decoTrace': deco_trace}
     out['def'] = 'ok'
+    out['decoTrace'] = deco_trace
     mod = ent['mod']
     k = getattr(mod, f"K{cls[0]['cid']}")
     fl = dataclasses.fields(k)
@@ -1399,15 +1589,23 @@ def run_one(case):
     allnames = [f.name for f in fl]
     memo = dict(ent['memo'])
     # the arguments are built first: building a nested instance of the class under test runs its __post_init__ / validate_types
-    apos = [build(j, memo) for j in c['ctor']['pos']]
-    akw = {fname(n): build(j, memo) for n, j in c['ctor']['kw']}
+    try:
+        apos = [build(j, memo) for j in c['ctor']['pos']]
+        akw = {fname(n): build(j, memo) for n, j in c['ctor']['kw']}
+    except BaseException as e:          # only on a tree whose decorated classes cannot even be instantiated for the argument values
+        out['ctor'] = 'arguments-' + exc_name(e)
+        return out
     del _J[:]
+    tr = FT.tracer()
+    tr.begin()
     try:
         inst = k(*apos, **akw)
         out['ctor'] = 'ok'
     except BaseException as e:
         out['ctor'] = exc_name(e)
         return out
+    finally:
+        out['ctorTrace'] = tr.end()
     out['journal'] = list(_J)
     out['set'] = [int(n[1:]) for n in allnames if getattr(inst, n, _UNSET) is not _UNSET]
     op = c['op']
@@ -1460,7 +1658,7 @@ def judge(case, impl, model):
         why.append('operation reached on one side only')
     elif io is not None:
         keys = {'copy': ['out', 'sameClass', 'journal', 'fields'], 'attr': ['outs'], 'hist': [],
-                'cmp': ['ctor2', 'eq', 'eqRev', 'eqSelf', 'hash', 'hash2', 'lt', 'gt']}[op[0]]
+                'cmp': ['ctor2', 'eq', 'eqRev', 'eqSelf', 'hash', 'hash2', 'lt', 'gt', 'le', 'ge']}[op[0]]
         if op[0] == 'hist':
             # step by step: outcome, class, journal and per-field fact vector of every copy; which fields of which live instance a mutation changed
             isteps, msteps = io.get('steps', []), mo.get('steps', [])
@@ -1483,9 +1681,10 @@ def judge(case, impl, model):
             # the spec's value order / equality against Python's own comparison of the field tuples
             if io.get('eqTuple') is not None and s.get('eq') is not None and c['op'][1] == 0 and io['eqTuple'] != s['eq']:
                 why.append(f"spec.eq {s['eq']} vs Python tuple == {io['eqTuple']}")
-            for k2 in ('lt', 'gt'):
+            for k2 in ('lt', 'gt', 'le', 'ge'):
                 if s.get(k2) is not None and io.get(k2 + 'Tuple') != s[k2]:
                     why.append(f"spec.{k2} {s[k2]} vs Python tuple comparison {io.get(k2 + 'Tuple')}")
+    why += trace_why(case, impl, model)
     if not m.get('wf', True) and impl.get('def') == 'ok':
         why.append('generator produced a class shape outside wfCls')
     if not m.get('live', True):
@@ -1494,11 +1693,21 @@ def judge(case, impl, model):
     # ---- property P on the implementation, decided with the spec values
     pfail, finding = None, None
     nontrivial = False
-    if io is not None and impl.get('ctor') == 'ok':
+    refused = bool(s.get('refused')) and any(l.get('hz') for l in c['cls'])
+    if refused and impl.get('def') == 'ok':
+        # dataclasses refuses this class statement for the options the decorator must hand over (frozen=True, …): no class may exist
+        acc = [f"{o[0]}attr('{fname(o[1])}')" for o, r in zip(op[1], (io or {}).get('outs', [])) if r == 'ok'] if op[0] == 'attr' else []
+        pfail = ('the decoration handed back a class for a definition that dataclass(frozen=True, …) refuses (' +
+                 ', '.join(sorted({l['hz'] for l in c['cls'] if l.get('hz')})) + ')' +
+                 (f"; its instance accepted {', '.join(acc)}" if acc else '; it can be instantiated' if impl.get('ctor') == 'ok' else ''))
+    if pfail is None and io is not None and impl.get('ctor') == 'ok':
         if op[0] == 'copy':
             meth = 'deep_copy_with' if op[1] else 'copy_with'
             nontrivial = any(f[1] and len(f) > 6 for f in io.get('fields', [])) and any(_has_mutable(j) for _, j in c['ctor']['kw'])
             pfail = copy_pfail(meth, io, s)
+            if pfail and pfail.startswith('REGION:'):
+                _, fid, pfail = pfail.split(':', 2)
+                finding = fid if corr else None
         elif op[0] == 'hist':
             nontrivial = True
             for k, (st, a, sp) in enumerate(zip(op[1], io.get('steps', []), s.get('steps', []))):
@@ -1506,6 +1715,9 @@ def judge(case, impl, model):
                     continue
                 meth = 'deep_copy_with' if st[1] else 'copy_with'
                 pf = copy_pfail(meth, a, sp)
+                if pf and pf.startswith('REGION:'):
+                    _, fid, pf = pf.split(':', 2)
+                    finding = fid if corr else None
                 if pf:
                     pfail = f'step {k} of the history ({meth} on instance {st[3]}, receiver taken as it is at that moment): {pf}'
                     break
@@ -1538,7 +1750,7 @@ def judge(case, impl, model):
                         pfail = 'an instance with an unhashable field tuple is hashable'
                 if not pfail and s['eq'] and io.get('hashEq') is False:
                     pfail = 'equal instances have different hashes'
-                for k2 in ('lt', 'gt'):
+                for k2 in ('lt', 'gt', 'le', 'ge'):
                     if not pfail and s.get(k2) is not None and io[k2] != s[k2]:
                         pfail = f"order=True: {k2} gives {io[k2]}, the field tuples give {s[k2]}"
     sub = ''
@@ -1557,6 +1769,37 @@ def judge(case, impl, model):
             'tag': f"{tag.split('/')[0]}/{tag.split('/')[1] if '/' in tag else ''}/{sub}", 'why': '; '.join(why[:4])}
 
 
+def trace_pairs(case, impl, model):
+    """[(what, observed statement trace, path of the IR interpreter)] of one case: the decorations of the module (first use only), the
+    constructor call, every copy call"""
+    m = model.get('model') or {}
+    out = [('decoration of the module', impl.get('decoTrace'), m.get('irDeco')),
+           ('constructor', impl.get('ctorTrace'), m.get('irCtor') if impl.get('ctor') == 'ok' and m.get('ctor') == 'ok' else None)]
+    io, mo = impl.get('op') or {}, m.get('op') or {}
+    if case['c']['op'][0] == 'copy':
+        out.append(('copy', io.get('trace'), (mo.get('ir') or {}).get('path')))
+    elif case['c']['op'][0] == 'hist':
+        for k, (a, b) in enumerate(zip(io.get('steps', []), mo.get('steps', []))):
+            if 'trace' in a:
+                out.append((f'step {k}', a.get('trace'), (b.get('ir') or {}).get('path')))
+    return out
+
+
+def trace_why(case, impl, model):
+    why = []
+    for what, obs, pred in trace_pairs(case, impl, model):
+        r = FT.compare(obs, pred)
+        if r:
+            why.append(f'{what}: {r}')
+    m = model.get('model') or {}
+    mo = m.get('op') or {}
+    irs = [mo.get('ir')] if case['c']['op'][0] == 'copy' else [st.get('ir') for st in mo.get('steps', [])] if case['c']['op'][0] == 'hist' else []
+    for ir in irs:
+        if ir and (ir.get('agrees') is False or ir.get('journalAgrees') is False):
+            why.append('the interpreted statement program of the copy method does not return what the hand model returns')
+    return why
+
+
 def copy_pfail(meth, io, s):
     """the copy clauses of the property on one observed call (`io`), decided with the spec values `s` for that call"""
     if not io.get('selfSame', True):
@@ -1564,6 +1807,8 @@ def copy_pfail(meth, io, s):
     if io.get('othersSame') is False:
         return f'{meth} changed another live instance'
     if s.get('valid'):
+        if io['out'] != 'ok' and s.get('copyable', True) is False:
+            return None          # an init field holds something copy.deepcopy cannot duplicate: no instance, nothing shared, nothing demanded
         if io['out'] != 'ok':
             return f"{meth} raised {io['out']} for keyword arguments that name init fields"
         if not io['sameClass']:
@@ -1585,6 +1830,12 @@ def copy_pfail(meth, io, s):
                 return f'{meth}: un-replaced field f{f[0]} shares {f[9]} mutable object(s) with an instance that existed before (original / earlier copy)'
             if e == 'equalOnly' and f[8] is not True:
                 return f'{meth}: init=False field f{f[0]} differs from the original value'
+        # the literal reading of "deep_copy_with shares no mutable field object" for init=False fields with a plain default (last: only when
+        # nothing else is wrong with the copy)
+        for f in io['fields']:
+            if f[0] in (s.get('sharedDefault') or []) and f[1] and f[7] != 0:
+                return (f'REGION:{FINDING_SHARED_DEFAULT}:{meth}: the init=False field f{f[0]} (plain default) of the copy is the object the original '
+                        f'holds: {f[7]} mutable object(s) shared (the default is one object for all instances)')
     elif s.get('valid') is False and io['out'] == 'ok':
         return f'{meth} accepted a keyword that is not an init field'
     return None
@@ -1611,4 +1862,7 @@ def extra_coverage(results):
                 key = ('field' if o[1] < NEW else 'new-name') + ('/slots' if any(l['dec'] and l['slots'] for l in c['c']['cls']) else '/dict') \
                     + ('/undecorated-head' if not c['c']['cls'][0]['dec'] else '') + ':' + r
                 rej[key] = rej.get(key, 0) + 1
-    return {'case_kinds': shapes, 'operation_outcomes': outs, 'rejections_by_exception': rej}
+    pairs = []
+    for (c, i, m, j) in results:
+        pairs += [(obs, pred, what.split()[0] + ':' + j.get('tag', '')) for what, obs, pred in trace_pairs(c, i, m)]
+    return {'case_kinds': shapes, 'operation_outcomes': outs, 'rejections_by_exception': rej, **FT.coverage(pairs)}
